@@ -474,6 +474,14 @@ class Acl(AceGroup):
 
         if self.group_by:
             acl_new.group(self.group_by)
+            # groups that remain keep their uuid, note and sequence number
+            old_groups: Dict[str, AceGroup] = {o.name: o for o in self._items if isinstance(o, AceGroup)}
+            for item in acl_new.items:
+                old_group = old_groups.get(item.name) if isinstance(item, AceGroup) else None
+                if old_group:
+                    item.uuid = old_group.uuid
+                    item.note = old_group.note
+                    item.sequence = old_group.sequence
         self.items = acl_new.items
         return shading_d
 
